@@ -3,7 +3,7 @@
 //! file orders) decode to exactly the nodes written; the shipped .gsa twins agree with the
 //! library's decode of the .gsb files at every node. Damaged: for every shipped grid file and
 //! generated ones: every truncation length, every single-bit flip in the header records, every
-//! header field x 14 adversarial encodings x both byte orders, Gravsoft token deletion /
+//! header field x 19 adversarial encodings x both byte orders, Gravsoft token deletion /
 //! duplication / replacement; then a query lattice. All in worker processes (4 GiB address
 //! space, 2 MiB stack, watchdog).
 
@@ -76,7 +76,7 @@ fn tokens(buf: &[u8]) -> Vec<(usize, usize)> {
     v
 }
 
-const FIELD_ENCODINGS: usize = 14;
+const FIELD_ENCODINGS: usize = 19;
 fn field_encoding(k: usize, be: bool) -> [u8; 8] {
     let f = |x: f64| if be { x.to_be_bytes() } else { x.to_le_bytes() };
     let u = |x: u32| {
@@ -99,7 +99,14 @@ fn field_encoding(k: usize, be: bool) -> [u8; 8] {
         10 => u(0x8000_0000),
         11 => u(0x7fff_ffff),
         12 => u(0xffff_fff0),
-        _ => u(0),
+        13 => u(0),
+        // names: the root marker, the names used in the generated and shipped files (so that a name or a parent
+        // field comes to refer to itself, to a sibling, or to the root marker), blanks
+        14 => *b"NONE    ",
+        15 => *b"ROOT    ",
+        16 => *b"CHILD   ",
+        17 => *b"5458    ",
+        _ => *b"        ",
     }
 }
 
@@ -487,7 +494,7 @@ fn well_formed(rep: &Report) {
 pub fn run(tier: Tier) -> Report {
     let rep = Report::new("C15", tier, "fault_enumeration");
     rep.rule("for each of 9 shipped and 5 generated grid files: every truncation length (dense up to a cap, strided beyond), every single-bit flip of the header region, every header \
-              field x 14 adversarial encodings x both byte orders (NTv2), token deletion / duplication / 7 replacements (Gravsoft); each corrupted file is decoded by the real reader \
+              field x 19 adversarial encodings x both byte orders (NTv2), token deletion / duplication / 7 replacements (Gravsoft); each corrupted file is decoded by the real reader \
               in a worker process and, if a grid results, queried at 214 points x 3 margins. Non-trivial = corruption that still yields a grid; distinct = distinct query result hash");
     rep.assume("a decode that returns Err is always acceptable; a decode that returns a grid must be queryable without panic, abort, hang or exceeding 4 GiB of address space");
     let outcomes = Mutex::new(HashSet::new());
